@@ -59,6 +59,15 @@ func genC10(r *Rng, tier string) *Plan {
 	g.P.Add(Op{K: "clock", N: int64(r.Intn(61))})
 	g.Run(flags, "second")
 	g.P.Meta["flags"] = fmt.Sprint(flags)
+	if r.Chance(1, 6) {
+		// scripted use: configs saved and sign run inside one coarse mtime granule, so config,
+		// artifact and issuer-artifact timestamps tie. (Outside assumption E2, which the other
+		// profiles need; the no-op and write-set clauses of C10 must hold here as well.)
+		g.P.NoGap, g.P.StepMs, g.P.LatMicros = true, 0, 0
+		g.P.GranNs = Pick(r, []int64{1e9, 2e9})
+		g.P.Clock0 -= g.P.Clock0 % 2 // start on a granule boundary
+		g.P.Meta["ties"] = "1"
+	}
 	return g.P
 }
 
@@ -86,6 +95,9 @@ func exploreC10(t *testing.T, seed uint64, idx int, tier string, sink *Sink) {
 	plan := genC10(r, tier)
 	w := Exec(t, plan, &c10Oracle{})
 	sink.Cell("flags:" + plan.Meta["flags"])
+	if plan.Meta["ties"] != "" {
+		sink.Cell("timestamps-tie")
+	}
 	sink.Cell("lane:S")
 	sink.Report(w)
 	if len(w.Viol) == 0 && w.Harness == "" && idx%12 == 0 {
